@@ -424,6 +424,131 @@ def py_expr(d):
     return 'Graph([%s], [%s])' % (', '.join(py_expr(e) for e in d['edges']), ', '.join(py_expr(v) for v in d['vertices']))
 
 
+
+# ---- structured multi-component differences (the property still classifies them unambiguously)
+def holders(d):
+    """the dicts carrying a `num` list, in component order (same order as arrays_of)"""
+    t = d['t']
+    if t in ('pose', 'arr'):
+        return [d]
+    if t == 'vertex':
+        return [d['pose']]
+    if t == 'edge':
+        return [d['info'], d['est']] + ([d['off']] if d['off'] is not None else [])
+    out = []
+    for e in d['edges']:
+        out += holders(e)
+    for v in d['vertices']:
+        out += holders(v)
+    return out
+
+
+TRANSFORMS = ['neg_all', 'scale2', 'permute', 'neg_pos', 'neg_orientation', 'zero_pos_neg_orientation', 'neg_pos_swap', 'half']
+
+
+def _split(h):
+    """(number of leading position components, has orientation part) of a holder"""
+    if h['t'] == 'pose' and h['kind'] == 'SE2' and len(h['num']) == 3:
+        return 2, True
+    if h['t'] == 'pose' and h['kind'] == 'SE3' and len(h['num']) == 7:
+        return 3, True
+    return len(h['num']), False
+
+
+def transform_pair(d, hidx, name):
+    """-> (a, b) built from d by changing the holder number hidx (None: every holder) or None if not applicable / no change"""
+    a, b = clone(d), clone(d)
+    ha, hb = holders(a), holders(b)
+    idxs = range(len(ha)) if hidx is None else [hidx]
+    changed = False
+    for i in idxs:
+        x = list(ha[i]['num'])
+        npos, has_or = _split(ha[i])
+        if name == 'neg_all':
+            y = [-v for v in x]
+        elif name == 'scale2':
+            y = [2 * v for v in x]
+        elif name == 'half':
+            y = [v / 2 for v in x]
+        elif name == 'permute':
+            y = x[1:] + x[:1]
+        elif name == 'neg_pos':
+            if not has_or:
+                continue
+            y = [-v for v in x[:npos]] + x[npos:]
+        elif name == 'neg_orientation':
+            if not has_or:
+                continue
+            y = x[:npos] + [-v for v in x[npos:]]
+        elif name == 'zero_pos_neg_orientation':
+            if not has_or:
+                continue
+            x = [Fr(0)] * npos + x[npos:]
+            y = x[:npos] + [-v for v in x[npos:]]
+            ha[i]['num'] = x
+        elif name == 'neg_pos_swap':      # position mirrored, orientation components reversed
+            if not has_or:
+                continue
+            y = [-v for v in x[:npos]] + x[npos:][::-1]
+        else:
+            raise ValueError(name)
+        if y != x:
+            changed = True
+        hb[i]['num'] = y
+    return (a, b) if changed else None
+
+
+def struct_jobs(tier, rng, stats):
+    """pairs (a, b) and (b, a) for every transform of every number array of a set of objects, lifted through
+    vertices, edges (information, estimate, offset) and graphs"""
+    jobs = []
+    n_pairs = 0
+
+    def add_pairs(job, d, whole=True):
+        nonlocal n_pairs
+        hs = holders(d)
+        targets = list(range(len(hs))) + ([None] if whole and len(hs) > 1 else [])
+        for hidx in targets:
+            for name in TRANSFORMS:
+                pr = transform_pair(d, hidx, name)
+                if pr is None:
+                    continue
+                ia = len(job.objs)
+                job.objs += [pr[0], pr[1]]
+                for tol in TOLS:
+                    job.cases += [(ia, ia + 1, 0, Fr(0), tol), (ia + 1, ia, 0, Fr(0), tol)]
+                n_pairs += 1
+    j = Job('c17_struct_pose', 'pose', [])
+    for k in KINDS:
+        for sc in (1, 2):
+            add_pairs(j, d_pose(k, None, sc))
+    jobs.append(j)
+    j = Job('c17_struct_vertex', 'vertex', [])
+    for k in KINDS:
+        for sc in (1, 2):
+            add_pairs(j, d_vertex(1, k, sc))
+    jobs.append(j)
+    shapes = [sh for sh in edge_shapes() if sh[1] == [1, 2] and sh[2] == (2, 2) and sh[5] in (None, 0) and (sh[0] != 'Landmark' or sh[4] is not None)]
+    if tier == 'quick':
+        # every estimate type on an odometry edge, two non-pose estimates on a user edge, five (estimate, offset) class pairs on a landmark edge
+        lm = {('R2', 'SE2'), ('R3', 'SE3'), ('SE3', 'SE3'), ('SE2', 'R2'), ((3,), 'R3')}
+        shapes = [sh for sh in shapes if sh[0] == 'Odometry' or (sh[0] == 'CustomA' and sh[3] in ((2,), ()))
+                  or (sh[0] == 'Landmark' and sh[5] is None and (sh[3], sh[4]) in lm)]
+    nf = 1 if tier == 'quick' else 8
+    for k in range(nf):
+        j = Job('c17_struct_edge_%d' % k, 'edge', [])
+        for sh in shapes[k::nf]:
+            add_pairs(j, d_edge(*sh))
+        jobs.append(j)
+    for f in ((0, 2) if tier == 'quick' else range(3)):
+        j = Job('c17_struct_graph_%d' % f, 'graph', [])
+        add_pairs(j, d_graph(f, 0, 1))
+        jobs.append(j)
+    stats['structured_pairs'] = n_pairs
+    stats['structured_transforms'] = TRANSFORMS
+    return jobs
+
+
 CAT = {'pose': ('pose Q', 'run_pose', 'pairs_pose'), 'vertex': ('vertex Q', 'run_vertex', 'pairs_vertex'),
        'edge': ('edge Q', 'run_edge', 'pairs_edge'), 'graph': ('graph Q', 'run_graph', 'pairs_graph')}
 HEAD = ('From Coq Require Import List ZArith QArith.\nFrom GS Require Import PyBase EqualsModel CorrHash EqCorr.\n'
@@ -508,7 +633,7 @@ def c17_jobs(tier, rng):
     # graphs
     objs = [d_graph(f, v, 1) for f in range(3) for v in range(12)] + [d_graph(f, 0, sc) for f in range(3) for sc in (0, 2)]
     j = Job('c17_graph', 'graph', objs)
-    for tol in TOLS:
+    for tol in (TOLS[:1] if tier == 'quick' else TOLS):
         j.cases += [(a, b, 0, Fr(0), tol) for a in range(len(objs)) for b in range(len(objs))]
     jobs.append(j)
     sel = list(range(len(objs)))
@@ -526,7 +651,7 @@ def c17_jobs(tier, rng):
         core = [s for s in shapes if s[1] == [1, 2] and s[2] == (2, 2) and s[4] in (None, 'SE2') and s[5] in (None, 0)]
         core += [s for s in shapes if s[3] == 'R2' and s[4] in (None, 'SE2') and s[5] is None and s not in core]
         rest = [s for s in shapes if s not in core]
-        sub = core + rng.sample(rest, 50)
+        sub = core + rng.sample(rest, 25)
     else:
         sub = shapes
     eobjs = [d_edge(*s) for s in sub]
@@ -550,6 +675,7 @@ def c17_jobs(tier, rng):
         jj = Job('c17_edgep_%02d' % k, 'edge', [d_edge(*s, scale=sc) for s, sc in part])
         pert_cases(jj, range(len(jj.objs)), 5 if tier == 'quick' else None)
         jobs.append(jj)
+    jobs += struct_jobs(tier, rng, stats)
     return jobs, stats
 
 
@@ -603,6 +729,7 @@ def _c17_worker(j):
             out['nontrivial'] += 1
         if dl != 0:
             out['perturbed'] += 1
+    out['structured'] = len(cases) if j.name.startswith('c17_struct_') else 0
     out['codes'] = codes if not j.sweep else None
     out['hashes'] = hashes(codes)
     out['ncases'] = len(cases)
@@ -633,11 +760,12 @@ def c17_run(tier, seed):
         res['oracle_violations'] += o['oracle_violations']
         res['oracle_checked'] += n
         res['nontrivial'] += o['nontrivial']
-        bc = res['by_category'].setdefault(j.cat, {'cases': 0, 'perturbed': 0})
+        bc = res['by_category'].setdefault(j.cat, {'cases': 0, 'perturbed': 0, 'structured': 0})
         bc['cases'] += n
         bc['perturbed'] += o['perturbed']
+        bc['structured'] += o['structured']
         res['evaluations'] += n
-        if len(res['samples']) < 5 and 'sample' in o and j.name in ('c17_pose', 'c17_vertex', 'c17_graphp_0', 'c17_edgep_00', 'c17_edgepairs_00'):
+        if len(res['samples']) < 5 and 'sample' in o and j.name in ('c17_pose', 'c17_struct_pose', 'c17_struct_vertex', 'c17_graphp_0', 'c17_edgep_00', 'c17_struct_edge_0'):
             res['samples'].append(o['sample'])
         out = coq.get(j.name)
         if not isinstance(out, list) or len(out) != 1:
@@ -1150,3 +1278,54 @@ def c18_replay(p):
                                                        {'K': 'KeyError', 'A': 'AssertionError (inconsistent edge)', 'O': 'accepted'}[sp]))
     v = {1: 'K', 2: 'A', 3: 'X'}.get(code, 'O')
     return 1 if (v != sp or post) else 0
+
+
+# =============================================================================================
+#      the class structure the hand-written models assume (checked by reflection on every run)
+# =============================================================================================
+def _defined_in(cls, name):
+    """the class of cls.__mro__ whose __dict__ provides attribute `name`"""
+    for k in cls.__mro__:
+        if name in k.__dict__:
+            return k
+    return None
+
+
+def class_structure(prop):
+    """-> list of (assumption text, holds?) : which class defines which method, as EqualsModel.v / ValidModel.v
+    take for granted (method resolution is not translated from the source)"""
+    from graphslam.pose.base_pose import BasePose
+    out = []
+
+    def chk(text, ok):
+        out.append((text, bool(ok)))
+    poses = [PoseR2, PoseR3, PoseSE2, PoseSE3]
+    for K in poses:
+        chk('%s.__mro__ is (%s, BasePose, ndarray, object)' % (K.__name__, K.__name__), K.__mro__[:3] == (K, BasePose, np.ndarray))
+    chk('no pose class is a subclass of another pose class', not any(issubclass(a, b) for a in poses for b in poses if a is not b))
+    chk('COMPACT_DIMENSIONALITY of (R2, R3, SE2, SE3) is (2, 3, 3, 6)', [getattr(K, 'COMPACT_DIMENSIONALITY', None) for K in poses] == [2, 3, 3, 6])
+    if prop == 'C17':
+        for K in poses:
+            chk('%s.equals is BasePose.equals (not overridden)' % K.__name__, _defined_in(K, 'equals') is BasePose and K.equals is BasePose.equals)
+            chk('%s does not define __eq__ / __ne__ of its own' % K.__name__, _defined_in(K, '__eq__') in (np.ndarray, object) and _defined_in(K, '__ne__') in (np.ndarray, object))
+            p = mkpose(K.__name__[4:])
+            chk('%s.to_array() returns the stored numbers' % K.__name__, type(p.to_array()) is np.ndarray and np.array_equal(p.to_array(), np.asarray(p)))
+        chk('Vertex.equals is defined in Vertex', _defined_in(Vertex, 'equals') is Vertex and Vertex.__mro__ == (Vertex, object))
+        chk('Graph.equals is defined in Graph', _defined_in(Graph, 'equals') is Graph and Graph.__mro__ == (Graph, object))
+        chk('BaseEdge.equals is defined in BaseEdge', _defined_in(BaseEdge, 'equals') is BaseEdge)
+        chk('EdgeOdometry.equals is BaseEdge.equals (not overridden)', _defined_in(EdgeOdometry, 'equals') is BaseEdge and EdgeOdometry.equals is BaseEdge.equals)
+        chk('EdgeLandmark.equals is defined in EdgeLandmark', _defined_in(EdgeLandmark, 'equals') is EdgeLandmark)
+        chk('EdgeOdometry / EdgeLandmark derive directly from BaseEdge', EdgeOdometry.__mro__[:2] == (EdgeOdometry, BaseEdge) and EdgeLandmark.__mro__[:2] == (EdgeLandmark, BaseEdge))
+        chk('a user subclass of BaseEdge inherits BaseEdge.equals', CustomA.equals is BaseEdge.equals and CustomB.equals is BaseEdge.equals)
+    else:
+        chk('BaseEdge._is_valid is defined in BaseEdge', _defined_in(BaseEdge, '_is_valid') is BaseEdge)
+        for E in (EdgeOdometry, EdgeLandmark):
+            chk('%s.is_valid is defined in %s' % (E.__name__, E.__name__), _defined_in(E, 'is_valid') is E)
+            chk('%s._is_valid is BaseEdge._is_valid (not overridden)' % E.__name__, _defined_in(E, '_is_valid') is BaseEdge and E._is_valid is BaseEdge._is_valid)
+            chk('%s derives directly from BaseEdge' % E.__name__, E.__mro__[:2] == (E, BaseEdge))
+            chk('%s.__init__ / vertices / vertex_ids are not properties' % E.__name__, not any(isinstance(getattr(E, a, None), property) for a in ('vertices', 'vertex_ids', 'information', 'estimate')))
+        chk('BaseEdge.is_valid is abstract', getattr(BaseEdge.is_valid, '__isabstractmethod__', False))
+        chk('Graph.__init__ and Graph._initialize are defined in Graph', _defined_in(Graph, '__init__') is Graph and _defined_in(Graph, '_initialize') is Graph and Graph.__mro__ == (Graph, object))
+        chk('Vertex.__init__ is defined in Vertex; id / pose are plain attributes', _defined_in(Vertex, '__init__') is Vertex and not any(isinstance(getattr(Vertex, a, None), property) for a in ('id', 'pose', 'gradient_index')))
+        chk('a user subclass of BaseEdge inherits BaseEdge._is_valid', K0._is_valid is BaseEdge._is_valid and K1._is_valid is BaseEdge._is_valid)
+    return out
